@@ -91,12 +91,12 @@ def Invalidated (nd : Node Val Err Op) : Prop :=
 
 theorem cohAt_of_invalidated {S : Sem Val Err Op} {env : PId → Val} {cells : List (Option Val)}
     {nd : Node Val Err Op} (h : Invalidated nd) : CohAt S env cells nd :=
-  ⟨fun _ hd => by rw [h.1] at hd; cases hd, fun e he => by rw [h.2.1] at he; cases he,
-   fun hp hd => by rw [h.2.2 hp] at hd; cases hd⟩
+  ⟨fun _ hd => (by rw [h.1] at hd; cases hd), fun e he => (by rw [h.2.1] at he; cases he),
+   fun hp hd => (by rw [h.2.2 hp] at hd; cases hd)⟩
 
 theorem invalidated_invNode (w : World Val Err Op) (q : PId) (nd : Node Val Err Op) (i : NId)
     (h : Invalidated nd) : Invalidated (invNode w q nd i) := by
-  refine ⟨by rw [invNode_dirty, h.1]; rfl, ?_, fun hp => ?_⟩
+  refine ⟨(by rw [invNode_dirty, h.1]; rfl), ?_, fun hp => ?_⟩
   · rw [invNode_error]; split
     · rfl
     · exact h.2.1
@@ -110,7 +110,7 @@ theorem invNode_invalidated {w : World Val Err Op} (hwf : WF w) {q : PId} {i : N
     (hn : w.nodes[i]? = some nd) (hq : q ∈ nd.iparams) (hroot : nd.prev = none → q ∈ nd.fnParams) :
     Invalidated (invNode w q nd i) := by
   have hc : nd.iparams.contains q = true := by simpa using hq
-  refine ⟨by rw [invNode_dirty, hc]; simp, by rw [invNode_error, hc]; simp, fun hp => ?_⟩
+  refine ⟨(by rw [invNode_dirty, hc]; simp), (by rw [invNode_error, hc]; simp), fun hp => ?_⟩
   have hp' : nd.prev = none := by
     rw [← hp, show (invNode w q nd i).prev = (invNode w q nd i).toNStat.prev from rfl, invNode_stat]
   have hself := (hwf.node i nd hn).rootSelf hp'
